@@ -40,7 +40,8 @@ ASSUMPTIONS = [
 MIN_NONTRIVIAL = {'quick': 15000, 'thorough': 300000}
 REQUIRED_MONITORS = ['boundary:Tract', 'fixed-point', 'unparsed-pp_desc',
                      'contract:scrub_aliquots', 'bare-quarter', 'context',
-                     'bare-quarter:PLSSDesc']
+                     'bare-quarter:PLSSDesc', 'bare-quarter:reconfigured',
+                     'boundary:PLSSDesc']
 EXHAUSTIVE_SUBSPACES = {
     'thorough': ["all 64 two-component chains x every spelling pair x every "
                  "applicable joiner (default config)"],
@@ -112,6 +113,32 @@ def check_chain(chain, spellings, joiners, cfg, ctx, rep, pytrs):
                           f"canonical {canon!r} gives {b.lots} {b.qqs} "
                           f"(config {cfg!r})")
             return
+        if len(text) % 3 == 0:
+            # The same chain as the block of a full description, with and
+            # without the OCR scrubbing of the description level.
+            ctx.hit('boundary:PLSSDesc')
+            ocr = len(text) % 2 == 0
+            pcfg = ','.join(filter(None, [cfg, 'parse_qq',
+                                          'ocr_scrub' if ocr else '']))
+            d = pytrs.PLSSDesc(f"T154N-R97W Sec 14: {text}", config=pcfg)
+            if len(d.tracts) != 1 or d.tracts[0].qqs != b.qqs \
+                    or d.tracts[0].lots != b.lots:
+                ctx.violation(
+                    'results-differ', case,
+                    f"PLSSDesc('T154N-R97W Sec 14: {text}', config {pcfg!r})"
+                    f" gives {[(t.lots, t.qqs, t.pp_desc) for t in d.tracts]}"
+                    f"; Tract({canon!r}, config {cfg!r}) gives {b.lots} "
+                    f"{b.qqs}", dedup=f"plss|{ocr}")
+                return
+            again = parse(pytrs, d.tracts[0].pp_desc, cfg)
+            if again.qqs != b.qqs or again.lots != b.lots:
+                ctx.violation(
+                    'reparse-changes', case,
+                    f"the tract's normalised text {d.tracts[0].pp_desc!r} "
+                    f"(PLSSDesc config {pcfg!r}) parses to {again.lots} "
+                    f"{again.qqs}, expected {b.lots} {b.qqs}",
+                    dedup=f"plss-again|{ocr}")
+                return
         ctx.hit('fixed-point')
         u = pytrs.Tract(text, config=cfg or None)       # not parsed
         if u.pp_desc != a.pp_desc or u.preprocess() != a.pp_desc:
@@ -192,7 +219,50 @@ BARE_CASES = [
 ]
 
 
+def check_bare_reconfigured(text, exp_plain, exp_clean, ctx, rep, pytrs):
+    """clean_qq switched on or off by assigning a new config to an existing
+    tract (directly, or through the containers' config_tracts)."""
+    for cfg0, cfg1, exp in (('clean_qq', 'clean_qq.False', exp_plain),
+                            ('', 'clean_qq', exp_clean),
+                            ('clean_qq', 'clean_qq=False', exp_plain),
+                            ('clean_qq.False', 'clean_qq.True', exp_clean)):
+        for how in ('tract.config', 'TractList.config_tracts',
+                    'PLSSDesc.config_tracts'):
+            case = {'bare': True, 'text': text, 'cfg': cfg0, 'then': cfg1,
+                    'how': how}
+            rep.set_case(case)
+            ctx.case([text, cfg0, cfg1, how], True,
+                     shape=f"bare-reconfigured|{cfg0}|{cfg1}|{how}",
+                     sample=case)
+            ctx.hit('bare-quarter:reconfigured')
+            with ctx.guard(case):
+                if how == 'PLSSDesc.config_tracts':
+                    d = pytrs.PLSSDesc(f"T154N-R97W Sec 14: {text}",
+                                       config=cfg0 or None)
+                    if len(d.tracts) != 1:
+                        continue
+                    d.config_tracts(cfg1)
+                    d.parse_tracts()
+                    t = d.tracts[0]
+                else:
+                    t = pytrs.Tract(text, config=cfg0 or None,
+                                    parse_qq=bool(len(text) % 2))
+                    if how == 'tract.config':
+                        t.config = cfg1
+                    else:
+                        pytrs.TractList([t]).config_tracts(cfg1)
+                    t.parse()
+                if t.aliquots_whole != exp:
+                    ctx.violation(
+                        'bare-quarter', case,
+                        f"{text!r} configured {cfg0!r}, then re-configured "
+                        f"{cfg1!r} through {how} and parsed: aliquots "
+                        f"{t.aliquots_whole} (pp {t.pp_desc!r}), expected "
+                        f"{exp}", dedup=f"reconf|{cfg1}|{how}")
+
+
 def check_bare(text, exp_plain, exp_clean, ctx, rep, pytrs):
+    check_bare_reconfigured(text, exp_plain, exp_clean, ctx, rep, pytrs)
     # clean_qq off / on, each reached through the config string, through the
     # parse() keyword, and through a keyword contradicting the config.
     for cfg, kw, exp in (('', None, exp_plain), ('clean_qq', None, exp_clean),
